@@ -11,6 +11,9 @@ Histories per project
              touch one source + --only-changed (exactly its destinations are copied)
   tags       install --tags T -> exactly the tagged subset; uninstall -> pre-install snapshot
   skip       install --skip-subprojects [sp] -> subset; uninstall
+  kill       fault injection: the installing process is SIGKILLed at its N-th mutating event (2-3 points) and by an
+             install script that runs last; the log names every file/symlink created so far (at most the one in flight
+             missing), uninstall removes exactly those
   combo      (thorough) --tags + --skip-subprojects + --quiet
   strace     (thorough; <=4 projects in quick) cold `meson install [--strip]` under strace -f: every mutating
              syscall of every process beneath DESTDIR (or meson-logs)
@@ -64,6 +67,7 @@ class Ctx:
         self.src_snap: T.Dict[str, list] = {}
         self.build_snap: T.Dict[str, list] = {}
         self.real_pre: T.Dict[str, bool] = {}
+        self.full_events = 0
         self.history = ''
         self.step = ''
         self.form = ''
@@ -357,6 +361,7 @@ def h_fresh(ctx: Ctx, rng: random.Random, form: str) -> None:
         o = run_meson(ctx, dd, install_argv(ctx, dd), 'install')
         if not o.ok:
             return
+        ctx.full_events = max((r.get('seq', 0) for r in o.records), default=0)
         check_installed(ctx, dd, o, expected, optional, fresh=True)
         do_uninstall(ctx, dd, pre, expected)
     finally:
@@ -520,6 +525,98 @@ def h_strace(ctx: Ctx, rng: random.Random, form: str) -> None:
         shutil.rmtree(ctx.trace, ignore_errors=True)
 
 
+def _killed_install(ctx: Ctx, dd: Dest, label: str, kill_at: T.Optional[int], env_extra: T.Mapping[str, str]) -> T.Optional[Obs]:
+    """`meson install` that is SIGKILLed (by the monitor at its N-th event, or by the killer install script)."""
+    o = Obs()
+    env = ctx.base_env()
+    env.update(dd.env)
+    env.update(env_extra)
+    argv = install_argv(ctx, dd)
+    o.pre = A.snapshot(dd.container)
+    r = runner.meson(argv, cwd=ctx.S, env=env, monitors=[A.audit_monitor(label, kill_at=kill_at)], timeout=180)
+    o.post = A.snapshot(dd.container)
+    real_fs_guard(ctx, argv)
+    o.rc, o.out, o.records = r.rc, r.out + r.err, r.records
+    if r.timed_out:
+        ctx.inconclusive.append(f'timeout:{label}')
+        return None
+    if r.signal != 9:
+        # the install ended before the kill point (or the script did not kill): nothing to decide here
+        ctx.count('kill-point-not-reached')
+        if r.rc != 0:
+            ctx.add(f'install:failed:rc={r.rc}', {'argv': argv, 'rc': r.rc, 'output_tail': o.out[-1200:]})
+        return None
+    v, c = A.check_audit_containment(r.records, dd.zones(ctx))
+    ctx.addall(v)
+    ctx.count('monitor:audit-events', c['events'])
+    ctx.count('monitor:containment-checks')
+    o.log, o.comments = A.read_log(os.path.join(ctx.bdir, 'meson-logs', 'install-log.txt'))
+    o.ok = True
+    return o
+
+
+def _after_kill(ctx: Ctx, dd: Dest, o: Obs, pre: T.Mapping[str, list], expected: T.Mapping[str, dict], max_in_flight: int) -> None:
+    """Log of a killed install names every non-directory created so far; uninstall removes exactly the named ones."""
+    not_logged, _ = script_leftovers(ctx, dd, expected)
+    last = [r for r in o.records if r.get('ev') == 'audit'][-8:]
+    in_flight = {r['path'] for r in last}
+    v, c, tolerated = A.check_log_after_kill(o.log, o.pre, o.post, dd.container, not_logged, in_flight, max_in_flight)
+    ctx.addall(v)
+    ctx.count('monitor:kill-runs')
+    ctx.count('monitor:kill-created-nondirs', c['created_nondirs'])
+    ctx.count('monitor:kill-log-names', c['named'])
+    ctx.count('monitor:kill-in-flight-tolerated', len(tolerated))
+    ctx.step += ' -> uninstall'
+    u = run_meson(ctx, dd, ['--internal', 'uninstall'], 'uninstall', cwd=ctx.bdir)
+    if not u.ok:
+        return
+    ctx.count('monitor:kill-uninstall-compared')
+    keep = {os.path.relpath(p, dd.container) for p in tolerated | not_logged}
+    for rel in sorted(set(u.post) - set(pre)):
+        if u.post[rel][0] == 'dir' or rel in keep:
+            continue   # directories are logged when the installer finishes; a killed run cannot have logged them
+        ctx.add(f'kill:uninstall-leftover:{u.post[rel][0]}', {'path': rel, 'object': u.post[rel][:5], 'log_names': len(o.log)})
+    for rel in sorted(set(pre) - set(u.post)):
+        ctx.add('uninstall:removed-foreign', {'path': rel, 'object': pre[rel][:5]})
+
+
+def h_kill(ctx: Ctx, rng: random.Random, form: str) -> None:
+    """Fault injection: SIGKILL the installing process (a) when its N-th mutating event is about to happen,
+    (b) from an install script that runs after everything was copied."""
+    expected, optional = G.expected_tree(ctx.spec)
+    total = ctx.full_events or 40
+    points = sorted({rng.randint(3, max(3, total - 1)), max(3, total - rng.randint(1, 6))})
+    if ctx.tier != 'quick':
+        points = sorted(set(points) | {rng.randint(3, max(3, total // 2))})
+    for i, n in enumerate(points):
+        dd = Dest(ctx, f'kill{i}', form)
+        try:
+            pre = A.snapshot(dd.container)
+            ctx.step = f'install killed at event {n}/{total}'
+            o = _killed_install(ctx, dd, 'install-kill', n, {})
+            if o is not None:
+                _after_kill(ctx, dd, o, pre, expected, max_in_flight=1)
+        finally:
+            dd.cleanup()
+    if ctx.spec.get('has_killer'):
+        dd = Dest(ctx, 'killscript', form)
+        try:
+            pre = A.snapshot(dd.container)
+            ctx.step = 'install killed by its last install script'
+            o = _killed_install(ctx, dd, 'install-kill-script', None, {'C11_KILL_PARENT': '1'})
+            if o is not None:
+                ctx.count('monitor:kill-by-script-runs')
+                # every rule was carried out before the scripts ran: the complete tree is there, and all of it is named
+                o.dest = A.snapshot(dd.destdir)
+                vt, c = A.check_tree(o.dest, expected, optional, ctx.src_snap, ctx.build_snap)
+                ctx.addall(vt)
+                ctx.count('monitor:tree-paths', c['paths'])
+                ctx.count('monitor:tree-compared')
+                _after_kill(ctx, dd, o, pre, expected, max_in_flight=0)
+        finally:
+            dd.cleanup()
+
+
 def run_history(ctx: Ctx, h: str) -> None:
     spec = ctx.spec
     rng = random.Random(f'c11hist:{spec["seed"]}:{h}')
@@ -552,6 +649,8 @@ def run_history(ctx: Ctx, h: str) -> None:
         h_reverse(ctx, rng, form, ['--tags', ','.join(tags), '--skip-subprojects', 'sp', '--quiet'], tags, 'sp', h)
     elif h == 'strace':
         h_strace(ctx, rng, form)
+    elif h == 'kill':
+        h_kill(ctx, rng, form)
     elif h == 'probe':
         h_reverse(ctx, rng, form, [], None, None, h)
     ctx.cases.append(common.digest([spec['kind'], spec['features'], h, form, len(spec['entries'])]))
@@ -643,13 +742,13 @@ def plan(chk: common.Check) -> T.List[T.Tuple[dict, T.List[str]]]:
     straced = 0
     for i, s in enumerate(specs):
         if quick:
-            hs = ['fresh', 'repeat', 'tags', 'skip']
+            hs = ['fresh', 'repeat', 'tags', 'skip', 'kill']
             wants = s['kind'] == 'c' or 'install_script' in s['features']
             if wants and straced < 4:
                 hs.append('strace')
                 straced += 1
         else:
-            hs = ['fresh', 'repeat', 'tags', 'skip', 'combo', 'strace']
+            hs = ['fresh', 'repeat', 'tags', 'skip', 'kill', 'combo', 'strace']
             if i % 3 == 0:
                 hs.append('tags2')
         out.append((s, hs))
@@ -700,7 +799,9 @@ def main() -> int:
                  ('monitor:dry-run-checked', 20), ('monitor:reinstall-compared', 10), ('monitor:only-changed-checked', 20),
                  ('monitor:tags-selections', 10), ('monitor:tags-excluded-entries', 20), ('monitor:skip-subprojects-selections', 10),
                  ('monitor:skip-excluded-entries', 5), ('monitor:world-snapshots', 50), ('monitor:strace-runs', 2),
-                 ('monitor:strace-mutating-syscalls', 50), ('projects-built-with-mini-ninja', 4)):
+                 ('monitor:strace-mutating-syscalls', 50), ('projects-built-with-mini-ninja', 4),
+                 ('monitor:kill-runs', 20), ('monitor:kill-created-nondirs', 100), ('monitor:kill-by-script-runs', 3),
+                 ('monitor:kill-uninstall-compared', 20)):
         chk.require(k, n)
     return chk.finish(
         rule='one case = (generated project, history, DESTDIR form); distinct by (project kind, feature set, history, DESTDIR form, '
